@@ -3,26 +3,26 @@
 import json, os
 HERE = os.path.dirname(os.path.dirname(os.path.abspath(__file__)))
 TECH = {
- "C01": ("byte-set reading of the unescape guard (4x256 cells; the same questions on the interpreted callables when the guard's shape is not the reviewed one) + def-use term extraction of canonicalize_url (component flow, scheme x port table, netloc template, trailing slash, query-list mappers) + codec error-handler dataflow; an unrecognised code shape is decided on the reviewed table of class representatives", "4.C01"),
+ "C01": ("byte-set reading of the unescape guard (4x256 cells; the same questions on the interpreted callables when the guard's shape is not the reviewed one) + def-use term extraction of canonicalize_url (component flow, scheme x port table, netloc template, trailing slash, query-list mappers) + codec error-handler dataflow; an unrecognised code shape is decided on the reviewed table of class representatives; decision-table reading of ensure_protocol (branch templates, hosts that begin like a scheme)", "4.C01"),
  "C02": ("dataflow ordering on canonicalize_url terms (cleaning pass, dot-segments vs empty path, unquote vs dot-segments, quoted = quote(unquote)) + regex-language inclusion (escape case, control chars, whitespace) + byte tables + normpath against the RFC 3986 reference on every short path", "4.C02"),
  "C03": ("sibling cross-check of pipeline terms (canonicalize vs normalize transformer sets, port-table agreement incl. protocol-relative urls, decode-before-filter/sort, fragment decided after unescape, platform parsers fed with the canonical url) + fingerprint_url factors through normalize_url (term shape) + regex-language / callback tables on infer_redirection's pre-pass (unreserved characters, control characters) + model table: the two composition equalities interpreted on 40 urls x platform_aware; C1-control rule of the unescaper and the import-time-iterator lint (both sides of the equalities are separate calls)", "4.C03"),
  "C04": ("regex-language inclusion of pinned irrelevant-key / sub-domain / redirect-spelling languages in today's, table inclusion, sort-key injectivity over value classes, required-step and order queries on normalize_url terms, finite-domain table of the shared host helper (fixed point), index-page stems; per-domain filter chosen by the host whatever its spelling (interpreted cells); import-time-iterator lint", "4.C04"),
- "C05": ("regex-language emptiness (whole-label removal, '&amp;' repair, protocol language), partial evaluation of normalize_url terms per option (option ownership), allowed-transformer sets per sink (an unknown transformer is decided on the reviewed representative table), exception-escape over the may-raise table, finite-domain tables (host helper, combo tables, netloc template, query splitting, urls without host or scheme x option corners), per-sink source sets (userinfo halves); normpath against the RFC 3986 reference on every short path", "4.C05"),
- "C06": ("term shape of fingerprint_url (constant port/scheme sinks, option defaults, lower-after-unescape), finite-domain interpretation of the language-label guard and query filters; SuffixTrie model table (strip_suffix takes what split_suffix leaves)", "4.C06"),
- "C07": ("sibling cross-checks on terms: shared host helper and step order in hostname helpers vs URL functions, get_hostname vs safe_urlsplit term equality modulo normal forms, forwarding checks on the *_lru_stems variants (calls in canonical argument form), string form = urlunsplit(tuple); decision tables of the protocol helpers; model table: helper = host of the url function on host classes and on redirecting / AMP-cache urls x shared options; unescape byte-set table (a delimiter left raw splits differently in the pre-split tuple and in the re-parsed string)", "4.C07"),
+ "C05": ("regex-language emptiness (whole-label removal, '&amp;' repair, protocol language), partial evaluation of normalize_url terms per option (option ownership), allowed-transformer sets per sink (an unknown transformer is decided on the reviewed representative table), exception-escape over the may-raise table, finite-domain tables (host helper, combo tables, netloc template, query splitting, urls without host or scheme x option corners), per-sink source sets (userinfo halves); normpath against the RFC 3986 reference on every short path; probe/table agreement of should_strip_query_item per option; memo-key completeness lint", "4.C05"),
+ "C06": ("term shape of fingerprint_url (constant port/scheme sinks, option defaults, lower-after-unescape), finite-domain interpretation of the language-label guard and query filters; SuffixTrie model table (strip_suffix takes what split_suffix leaves); special-host table and the '&amp;' repair language (the repair runs before the language items are filtered)", "4.C06"),
+ "C07": ("sibling cross-checks on terms: shared host helper and step order in hostname helpers vs URL functions, get_hostname vs safe_urlsplit term equality modulo normal forms, forwarding checks on the *_lru_stems variants (calls in canonical argument form), string form = urlunsplit(tuple); decision tables of the protocol helpers; model table: helper = host of the url function on host classes and on redirecting / AMP-cache urls x shared options; unescape byte-set table (a delimiter left raw splits differently in the pre-split tuple and in the re-parsed string); memo-key and cache-key lints (helper and url function are compared call by call)", "4.C07"),
  "C08": ("model table: SuffixTrie and the tld functions interpreted (analyser's own evaluator, no import of ural) on a 13-rule miniature list x host classes (depth, case incl. non-ASCII, trailing dot, wildcard / exception) against the publicsuffix.org algorithm + instance independence + rule-set conditions evaluated on all bundled rules + punycode table + who-fills / who-reads rule on the two module tables (loaded before any reader)", "4.C08"),
  "C09": ("bounded model table: HostnameTrieSet interpreted on every ordered selection of <= 2 (quick) / 3 (thorough) adds over 10 hosts, observed at the end and after every add, against the set-of-suffix-closed-hosts reference + CFG pairing rules on set_and_prune_if_shorter + tokenizer agreement add/match via terms (interpreted tokenizer cells when the shape is not recognised) + typestate on lookups", "4.C09"),
  "C10": ("bounded model table: TrieDict interpreted on every history of <= 2 / 3 assignments over 5 keys x 2 values (observed at the end and between assignments) against a dict + sentinel-discipline lint, CFG pairing rules on __setitem__, typestate 'every visited node is examined' on lookups and traversals, exit-shape rules", "4.C10"),
- "C11": ("bounded model table: LRUTrie interpreted on every history of <= 2 / 3 stores over 7 keys (incl. the LRU without stems) through its four entry points + tokenize decided by interpreting it on instances with the stems functions replaced by recorders + sibling normalisation of the entry points (terms), variant forwarding, clean_trailing_path table, normpath reference, unescape byte tables (same string => same key), shared TrieDict typestate/pairing rules", "4.C11"),
- "C12": ("model tables: lru_stems / url_to_lru / lru_to_url interpreted on one url per component-presence class (both suffix settings, each url also after the other setting) against the documented stem format and a urlsplit round trip; splitter tag alphabet by constant folding; port-splitter look-ahead language; SuffixTrie model table", "4.C12"),
- "C13": ("emission-order rule over the tagged appends (program order, constant tags folded) + the LRU and SuffixTrie model tables (protocol-relative and cross-setting cells) + serialisation terminator + special-host language", "4.C13"),
+ "C11": ("bounded model table: LRUTrie interpreted on every history of <= 2 / 3 stores over 7 keys (incl. the LRU without stems) through its four entry points + tokenize decided by interpreting it on instances with the stems functions replaced by recorders + sibling normalisation of the entry points (terms), variant forwarding, clean_trailing_path table, normpath reference, unescape byte tables (same string => same key), shared TrieDict typestate/pairing rules; variant-key table: stems of the unsplit=False tuple = stems of the string the url function returns (escaped credentials, unreserved escapes, dot segments)", "4.C11"),
+ "C12": ("model tables: lru_stems / url_to_lru / lru_to_url interpreted on one url per component-presence class (both suffix settings, each url also after the other setting) against the documented stem format and a urlsplit round trip; splitter tag alphabet by constant folding; port-splitter look-ahead language; SuffixTrie model table; returned-container rule (a result emptied by the caller does not change the next answer); import-time-iterator lint", "4.C12"),
+ "C13": ("emission-order rule over the tagged appends (program order, constant tags folded) + the LRU and SuffixTrie model tables (protocol-relative and cross-setting cells) + serialisation terminator + special-host language; memo-key completeness lint (url_to_lru keyed without suffix_aware)", "4.C13"),
  "C14": ("byte-set table reading of _unquote_impl (or, for another shape of the module, the same table on the interpreted callables), hex-table enumeration, regex-language equivalence of the escape patterns, path rule on unquote's returns, codec error-handler dataflow", "4.C14"),
- "C15": ("progress-guard rule: path conditions of the recursive call evaluated over the orderings of len(target) vs len(url); provenance of returned terms; model table: fixed point, repeated call, reference join of relative targets on 32 url classes; who-reads lint on import-time one-shot iterators and cache-key lint on memoised functions (the clause compares several calls)", "4.C15"),
+ "C15": ("progress-guard rule: path conditions of the recursive call evaluated over the orderings of len(target) vs len(url); provenance of returned terms; model table: fixed point, repeated call, reference join of relative targets on 32 url classes; who-reads lint on import-time one-shot iterators and cache-key lint on memoised functions (the clause compares several calls); memo-key completeness lint", "4.C15"),
  "C16": ("regex-language inclusion lattice of the four URL patterns + truth-table proof of option monotonicity over the decision term + validated-before-yield and stripped-after-last-cut path rules on urls_from_text (the latter from the language fact that a match can hold whitespace inside) + model tables of urls_from_text on text classes and of has_valid_tld / is_valid_tld over a miniature TLD table", "4.C16"),
  "C17": ("twin-regex encoding/flags/ASCII-determinedness, normalised AST comparison of the str/bytes iterators when both exist, model tables: urls_from_html on document classes (str and bytes) and links_from_html on href classes x 8 option settings against the documented filter chain; protocol-pattern agreement on whatever pattern should_follow_href reaches", "4.C17"),
- "C18": ("regex-language products: string form vs reference url language over U, parsed form vs pinned domain language (look-alike emptiness), attribute-dependence on terms, domain-list hygiene, model table of the three trie predicates (module-level tries built by interpreting the modules' own top-level loops) on a stride of the lists x url classes", "4.C18"),
+ "C18": ("regex-language products: string form vs reference url language over U, parsed form vs pinned domain language (look-alike emptiness), attribute-dependence on terms, domain-list hygiene, model table of the three trie predicates (module-level tries built by interpreting the modules' own top-level loops) on a stride of the lists x url classes; predicate table: the five platform predicates interpreted on host letter cases x url spellings x decoys, str and parsed form; deepest-entry sub-domains in the trie table", "4.C18"),
  "C19": ("abstract interpretation (list-length intervals with length aliases, optional values incl. a split result handed to another function of the package, dict keys) over 34 platform functions, validator-dominance on record constructions, template/route agreement, model tables: YouTube and Facebook parsers interpreted on route x id/name classes (totality, valid ids, canonical-url round trip), every one-argument public function interpreted on strings the standard parser refuses; Telegram model table (routes x public-preview twin)", "4.C19"),
- "C20": ("regex-language facts on PROTOCOL_RE (prefix code, anchoring), decision-table reading of the protocol helpers and safe_urlsplit (recognised atomic tests, arms evaluated on marker values; an unrecognised test is decided on the interpreted url-class x protocol-spelling cells), finite-domain tables of format_url / URLFormatter / add_query_argument / safe_qsl_iter, reader/writer agreement of get_query_argument; cache-key lint on memoised functions (typed key where the answer depends on an argument's type) and import-time-iterator lint, each with a built-in positive example", "4.C20"),
+ "C20": ("regex-language facts on PROTOCOL_RE (prefix code, anchoring), decision-table reading of the protocol helpers and safe_urlsplit (recognised atomic tests, arms evaluated on marker values; an unrecognised test is decided on the interpreted url-class x protocol-spelling cells), finite-domain tables of format_url / URLFormatter / add_query_argument / safe_qsl_iter, reader/writer agreement of get_query_argument; cache-key lint on memoised functions (typed key where the answer depends on an argument's type) and import-time-iterator lint, each with a built-in positive example; memo-key completeness lint; one URLFormatter instance called several times (sequence cells)", "4.C20"),
 }
 ND = {
  "C01": "decides component-wise safety conditions only (unescape tables, component ownership, port/slash rules); that the composed steps re-parse to the same components for every string is not derived",
